@@ -91,6 +91,14 @@ func (rs *requestStream) Read(p []byte) (int, error) {
 	return n, err
 }
 
+// drained reports whether the whole request body has been read from rs.
+func (rs *requestStream) drained() bool {
+	if rs.header.ContentLength() == -1 {
+		return rs.eof
+	}
+	return rs.totalBytesRead == rs.header.ContentLength()
+}
+
 func acquireRequestStream(b *bytebufferpool.ByteBuffer, r *bufio.Reader, h bodyStreamHeader) *requestStream {
 	rs := requestStreamPool.Get().(*requestStream) //nolint:forcetypeassert
 	rs.prefetchedBytes = bytes.NewReader(b.B)
